@@ -375,11 +375,18 @@ def run_check(prop, tier, seed, replay=None):
                 c.tags.append("corpus")
                 cases.append(c)
             batch = []
+            # a soft wall-clock budget for generating cases (VERIF_BUDGET_S; default 150 s quick, 540 s thorough,
+            # well above what a run takes on this sandbox): on a loaded machine the run ends in bounded time with
+            # what it explored so far, and says so in the evidence
+            budget = float(os.environ.get("VERIF_BUDGET_S", "150" if tier == "quick" else "540"))
             for c in prop.cases(tier, rng):
                 batch.append(c)
                 if len(batch) >= 2000:
                     judge_cases(prop, cases + batch, rep)
                     cases, batch = [], []
+                    if time.time() - rep.t0 > budget:
+                        rep.notes["stopped_by_time_budget_after_s"] = round(time.time() - rep.t0, 1)
+                        break
             cases += batch
             prop.extra_checks(tier, rng, rep)
         judge_cases(prop, cases, rep)
